@@ -630,6 +630,16 @@ Definition cap_self (can_assign : bool) : M expr :=
 Definition call_args : M (list expr) :=
   argument_list TRightParen "Cannot have more than 255 arguments." "Expected ')' after arguments.".
 
+Fixpoint instance_local_name (comps : list compiler) : list byte :=
+  match comps with
+  | [] => []
+  | c :: r =>
+    match l_name (last (c_locals c) (mkLocal [] None)) with
+    | [] => instance_local_name r
+    | n => n
+    end
+  end.
+
 Definition super_ (can_assign : bool) : M expr :=
   s <- get ;;
   (match p_classes s with
@@ -641,8 +651,10 @@ Definition super_ (can_assign : bool) : M expr :=
   consume TIdentifier "Expected superclass method name." ;;;
   p <- previous ;;
   let m := tsource p in
-  c <- compiler_ ;;
-  resolve_variable (l_name (last (c_locals c) (mkLocal [] None))) ;;;
+  (* the receiver: slot 0 of the innermost compiler whose slot 0 has a name (`self` / `Self`), also
+     when `super` is used in a function nested inside the method (compiler commit 0fbde2d) *)
+  s <- get ;;
+  resolve_variable (instance_local_name (p_comps s)) ;;;
   lp <- match_token TLeftParen ;;
   if lp then
     args <- call_args ;;
@@ -800,8 +812,8 @@ Definition attrs_loop (acc : list attribute) : M (list attribute) :=
   | None => ret acc
   | Some a =>
     if has_attr (tsource (a_name a)) acc then
-      p <- previous ;;
-      error ("Duplicate attribute '" ++ str_of (tsource p) ++ "'.")
+      (* reported at the duplicate attribute's name token (compiler commit eac17ca) *)
+      error_at (a_name a) ("Duplicate attribute '" ++ str_of (tsource (a_name a)) ++ "'.")
     else
       c <- match_token TComma ;;
       if c then r_attrs_loop r (acc ++ [a])%list else ret (acc ++ [a])%list
